@@ -26,13 +26,16 @@ class DatasetAxes(Axes):
         self._ds = ds  # attached dataset
 
     def __setitem__(self, key, item):
-        super(DatasetAxes, self).__setitem__(key, item)
-        # also apply the change to the contained DimArrays
+        pos = self._get_idx(key) # the axis may be given by name or by position
+        oldname = list.__getitem__(self, pos).name
+        super(DatasetAxes, self).__setitem__(pos, item)
+        newaxis = list.__getitem__(self, pos)
+        # also apply the change to the contained DimArrays (which know the axis under its old name)
         for k in self._ds.keys():
             dima = self._ds[k]
-            if key not in dima.dims: 
+            if oldname not in dima.dims: 
                 continue
-            dima.axes[key] = self[key]
+            dima.axes[oldname] = newaxis
 
     def __deepcopy__(self, memo):
         ' deepcopy interface otherwise fails '
